@@ -32,6 +32,11 @@ def fold(e, env):
         if isinstance(e[2], int):
             return e[2]
         raise Unknown()
+    if t == 'index' and e[1][0] == 'const' and isinstance(e[1][2], tuple):
+        i = fold(e[2], env)
+        if 0 <= i < len(e[1][2]):
+            return e[1][2][i]
+        raise Unknown()
     if t == 'cast':
         v = fold(e[2], env)
         m = _mask(e[1])
@@ -133,7 +138,7 @@ class ByteEval:
                 return [tgt]
         return [t['otherwise']]
 
-    def paths(self, v, start=None, limit=6000):
+    def paths(self, v, start=None, limit=6000, max_visits=1):
         """Acyclic paths (block tuples) from start to a return under value v, evaluating multi-def
         locals along each path."""
         if start is None:
@@ -151,14 +156,14 @@ class ByteEval:
                     raise RuntimeError('path budget exceeded')
                 continue
             for s in self.edges(b, v, env):
-                if s in p:
+                if p.count(s) >= max_visits:
                     continue
                 stack.append((s, p + (s,), env))
         return out
 
-    def reachable(self, v, start=None):
+    def reachable(self, v, start=None, max_visits=1):
         seen = set()
-        for p in self.paths(v, start):
+        for p in self.paths(v, start, max_visits=max_visits):
             seen.update(p)
         return seen
 
